@@ -41,6 +41,7 @@ fn main() {
     let id: &'static str = Box::leak(args[1].clone().into_boxed_str());
     let ctx: &'static Ctx = Box::leak(Box::new(Ctx::new(id, tier)));
     let code = match id {
+        "C01" => props::c01::run(ctx),
         "C02" => props::c02::run(ctx),
         "C03" => props::c03::run(ctx),
         "C04" => props::c04::run(ctx),
@@ -70,6 +71,7 @@ fn replay_file(path: &str) -> i32 {
     let case = &v["case"];
     let run = |case: &serde_json::Value| -> Result<String, String> {
         match id.as_str() {
+            "C01" => props::c01::replay(case),
             "C02" => props::c02::replay(case),
             "C03" => props::c03::replay(case),
             "C04" => props::c04::replay(case),
